@@ -24,6 +24,7 @@ import vlib
 
 LEVEL = "model_checking"
 
+CLAIMED = True   # set by the lead after review; only claimed checks enter MANIFEST.json
 MANIFEST = dict(
     category="model_checking",
     technique="TLA+ reference semantics of search filters with admissible-outcome sets (TLC exhaustive over value x operator x "
